@@ -117,7 +117,7 @@ func loadProgram(repo string, ov map[string][]byte, pkgDirs []string) (*ssa.Prog
 		return nil, nil, fmt.Errorf("package load errors:\n  %s", strings.Join(errs, "\n  "))
 	}
 	prog, spkgs := ssautil.AllPackages(pkgs, ssa.InstantiateGenerics)
-	prog.Build()
+	// function bodies are built lazily, package by package (see ensureBuilt)
 	return prog, spkgs, nil
 }
 
@@ -150,14 +150,17 @@ type WorkerResult struct {
 	MaxSteps     int64                  `json:"max_steps_per_path"`
 	Solver       string                 `json:"solver"`
 	Fix          string                 `json:"fix,omitempty"`
+	Shard        string                 `json:"shard,omitempty"`
 	FactHits     int                    `json:"decided_by_path_facts"`
 }
 
 var fixedVars map[string]int64
+var shardW, shardN, shardDepth int
 
 func main() {
 	debug.SetMaxStack(2 << 30)
-	debug.SetGCPercent(600)
+	debug.SetGCPercent(400)
+	debug.SetMemoryLimit(3 << 30)
 	if len(os.Args) < 2 {
 		fmt.Fprintln(os.Stderr, "usage: gosym run|worker|list ...")
 		os.Exit(2)
@@ -189,6 +192,7 @@ func cmdWorker(args []string) int {
 	maxPaths := fs.Int("maxpaths", 0, "stop after this many paths (0 = unlimited)")
 	budget := fs.Duration("budget", 0, "wall budget for the exploration")
 	fix := fs.String("fix", "", "pin nd range variables: name=value,name=value")
+	shard := fs.String("shard", "", "w/W@d: explore only the depth-d subtrees whose DFS index is w mod W")
 	fs.Parse(args)
 	fixedVars = map[string]int64{}
 	for _, kv := range strings.Split(*fix, ",") {
@@ -199,8 +203,12 @@ func cmdWorker(args []string) int {
 		}
 	}
 
-	res := &WorkerResult{Harness: *harness, Solver: *solverKind, Fix: *fix}
+	if *shard != "" {
+		fmt.Sscanf(*shard, "%d/%d@%d", &shardW, &shardN, &shardDepth)
+	}
+	res := &WorkerResult{Harness: *harness, Solver: *solverKind, Fix: *fix, Shard: *shard}
 	t0 := time.Now()
+	outPath = *out
 	err := runWorker(res, *repo, *prop, *harness, *tier, *solverKind, *qTimeout, *trace, *smtlog, *maxPaths, *budget)
 	if err != nil {
 		res.Error = err.Error()
@@ -220,6 +228,7 @@ func cmdWorker(args []string) int {
 }
 
 var tierName = "quick"
+var outPath string
 
 func runWorker(res *WorkerResult, repo, prop, harness, tier, solverKind string, qTimeout int, trace bool, smtlog string, maxPaths int, budget time.Duration) error {
 	tierName = tier
@@ -245,6 +254,9 @@ func runWorker(res *WorkerResult, repo, prop, harness, tier, solverKind string, 
 		return err
 	}
 	res.LoadS = time.Since(t0).Seconds()
+	if outPath != "" {
+		os.WriteFile(outPath+".loaded", nil, 0o644)
+	}
 	runtime.GOMAXPROCS(2)
 	var fn *ssa.Function
 	for _, p := range spkgs {
@@ -274,6 +286,7 @@ func runWorker(res *WorkerResult, repo, prop, harness, tier, solverKind string, 
 		e.deadline = time.Now().Add(budget)
 	}
 	e.fixed = fixedVars
+	e.shardW, e.shardN, e.shardDepth = shardW, shardN, shardDepth
 	ex = e
 	explore(i, fn, e)
 	res.FactHits = e.FactHits
@@ -345,7 +358,24 @@ func explore(i *interpreter, fn *ssa.Function, e *Explorer) {
 		i.stubs = map[string]*ssa.Function{}
 		i.mapOrderAny = 0
 		envOverride = map[string]string{}
+		ncand := len(e.Candidates)
 		kind, msg := runOnce(i, fn, e)
+		if kind == peSkipped {
+			if !e.next() {
+				return
+			}
+			continue
+		}
+		if e.shardN > 1 && e.pos <= e.shardDepth && len(e.trail) <= e.shardDepth {
+			// a path with fewer forks than the shard depth belongs to shard 0
+			if e.shardW != 0 {
+				e.Candidates = e.Candidates[:ncand]
+				if !e.next() {
+					return
+				}
+				continue
+			}
+		}
 		e.Paths++
 		e.PathsByKind[peNames[kind]]++
 		switch kind {
@@ -454,9 +484,10 @@ func loadKnown() []KnownFinding {
 }
 
 type harnessSpec struct {
-	name string
-	pkg  string // rel dir
-	fix  string
+	name  string
+	pkg   string // rel dir
+	fix   string
+	shard string
 }
 
 // expandSplits parses "//verif:split a=0..3 b=0..2" into all combinations "a=0,b=0", ...
@@ -505,8 +536,20 @@ func listHarnesses(repo, prop, tier string, hfs []harnessFile) ([]harnessSpec, e
 							fixes = expandSplits(strings.TrimPrefix(lines[j], "//verif:split-"+tier+" "))
 						}
 					}
+					shardW, shardD := 0, 0
+					for j := li - 1; j >= 0 && strings.HasPrefix(lines[j], "//"); j-- {
+						if strings.HasPrefix(lines[j], "//verif:shard-"+tier+" ") {
+							fmt.Sscanf(strings.TrimPrefix(lines[j], "//verif:shard-"+tier+" "), "%d %d", &shardW, &shardD)
+						}
+					}
 					for _, fx := range fixes {
-						out = append(out, harnessSpec{name[:k], hf.PkgDir, fx})
+						if shardW > 1 {
+							for w := 0; w < shardW; w++ {
+								out = append(out, harnessSpec{name[:k], hf.PkgDir, fx, fmt.Sprintf("%d/%d@%d", w, shardW, shardD)})
+							}
+						} else {
+							out = append(out, harnessSpec{name[:k], hf.PkgDir, fx, ""})
+						}
 					}
 				}
 			}
@@ -596,6 +639,8 @@ func cmdRun(args []string) int {
 		}
 	}
 	results := make([]*WorkerResult, len(sel))
+	loadSem := make(chan struct{}, 5)
+	var loadMu sync.Mutex
 	var wg sync.WaitGroup
 	sem := make(chan struct{}, *jobs)
 	for k, h := range sel {
@@ -606,12 +651,41 @@ func cmdRun(args []string) int {
 			defer func() { <-sem }()
 			outp := filepath.Join(tmp, fmt.Sprintf("%s-%d.json", h.name, k))
 			cmd := exec.Command(self, "worker", "-repo", *repo, "-prop", *prop, "-harness", h.name, "-out", outp,
-				"-tier", *tier, "-solver", *solverKind, "-qtimeout", fmt.Sprint(qt), "-fix", h.fix, "-budget", budget.String())
+				"-tier", *tier, "-solver", *solverKind, "-qtimeout", fmt.Sprint(qt), "-fix", h.fix, "-budget", budget.String(), "-shard", h.shard)
 			cmd.Env = append(os.Environ(), "GOFLAGS=-mod=mod", "GOPROXY=off", "GOSUMDB=off", "GOTOOLCHAIN=local")
 			var errb strings.Builder
 			cmd.Stderr = &errb
 			cmd.Stdout = &errb
-			err := cmd.Run()
+			loadSem <- struct{}{}
+			released := false
+			release := func() {
+				if !released {
+					released = true
+					<-loadSem
+				}
+			}
+			err := cmd.Start()
+			if err == nil {
+				go func() {
+					// the worker touches <out>.loaded when its program is loaded
+					for t := 0; t < 3000; t++ {
+						if _, e := os.Stat(outp + ".loaded"); e == nil {
+							break
+						}
+						if _, e := os.Stat(outp); e == nil {
+							break
+						}
+						time.Sleep(100 * time.Millisecond)
+					}
+					loadMu.Lock()
+					release()
+					loadMu.Unlock()
+				}()
+				err = cmd.Wait()
+			}
+			loadMu.Lock()
+			release()
+			loadMu.Unlock()
 			r := &WorkerResult{Harness: h.name}
 			if b, rerr := os.ReadFile(outp); rerr == nil {
 				json.Unmarshal(b, r)
@@ -777,7 +851,7 @@ func report(repo, prop, tier string, results []*WorkerResult, hfs []harnessFile,
 			machinery = append(machinery, fmt.Sprintf("%s: vacuous — no assertion reached on any path (paths=%d kinds=%v unsupported=%v)", h.name, r.Paths, r.PathsByKind, r.Unsupported))
 		}
 		harnessSummaries = append(harnessSummaries, map[string]interface{}{
-			"harness": r.Harness, "fixed": r.Fix, "decided_by_path_facts": r.FactHits, "paths": r.Paths, "paths_by_kind": r.PathsByKind, "dfs_exhausted": r.Exhausted,
+			"harness": r.Harness, "fixed": r.Fix, "shard": r.Shard, "decided_by_path_facts": r.FactHits, "paths": r.Paths, "paths_by_kind": r.PathsByKind, "dfs_exhausted": r.Exhausted,
 			"asserts": r.Asserts, "forks": r.Forks, "solver_queries": r.Queries, "sat": r.QSat, "unsat": r.QUnsat, "unknown": r.QUnknown,
 			"solver_errors": r.QErrors, "solver_s": r.SolverS, "wall_s": r.WallS, "load_s": r.LoadS, "unsupported": r.Unsupported,
 			"inconclusive": r.Inconclusive, "candidates": len(r.Candidates), "repo_functions": r.RepoFuncs, "init_notes": r.InitNotes,
